@@ -395,6 +395,11 @@ func TestProp_CounterMerges(t *testing.T) {
 			n := 0
 			if k == 0 {
 				n = rapid.IntRange(0, 3).Draw(t, "n")
+				// one tick in six requests 2^31 .. 2^62 iterations (a rate such as 3000000000/1s with
+				// --distribution none): the counter must hold it, none() must say "work pending"
+				if rapid.IntRange(0, 5).Draw(t, "huge") == 0 {
+					n = rapid.SampledFrom([]int{1<<31 - 1, 1 << 31, 3000000000, 1<<32 + 1, 1 << 40, 1 << 62}).Draw(t, "hugeN")
+				}
 			}
 			return cop{Kind: k, N: n}
 		})
@@ -422,7 +427,15 @@ func TestProp_CounterMerges(t *testing.T) {
 			}
 		}
 		hasSetAndTake = sets > 0 && takes > 0 && nthreads > 1
-		stats.Case("counter", fmt.Sprint(threads), hasSetAndTake, []string{fmt.Sprintf("threads-%d", nthreads)}, func() any {
+		ccls := []string{fmt.Sprintf("threads-%d", nthreads)}
+		for _, th := range threads {
+			for _, o := range th {
+				if o.Kind == 0 && o.N >= 1<<31 && len(ccls) == 1 {
+					ccls = append(ccls, "tick-of-2^31-or-more-requests")
+				}
+			}
+		}
+		stats.Case("counter", fmt.Sprint(threads), hasSetAndTake, ccls, func() any {
 			return map[string]any{"threads": fmt.Sprint(threads), "interleavings": n}
 		})
 		stats.AddNote("counter_interleavings", int64(n))
